@@ -279,7 +279,9 @@ void sqf::fileio::impl_default::add_pbo_mapping(std::filesystem::path p)
         log(logmessage::fileio::PBOAlreadyAdded(p.string()));
         return;
     }
-    rvutils::pbo::pbofile pbo(p);
+    // pbofile(path) creates the file if it does not exist, reading must not do that
+    rvutils::pbo::pbofile pbo;
+    pbo.open(p);
     if (!pbo.good())
     {
         log(logmessage::fileio::FailedToParsePBO(p.string()));
